@@ -393,6 +393,19 @@ pub fn check_build(flags: u16, opcode: u8, rcode: u16, id: u16, n: [usize; 4]) -
             }
         }
     }
+    // the compressed entry point writes the same header
+    {
+        let exp = header(id, flags | ((opcode as u16) << 11) | (rcode & 0xf), [n[0] as u16, n[1] as u16, n[2] as u16, n[3] as u16]);
+        match guarded(|| to_lib(&p).and_then(|l| l.build_bytes_vec_compressed().map_err(|e| format!("{:?}", e)))) {
+            Err(pn) => out.push(finding(format!("C08|build-compressed|{}", pn.sig()), format!("{:?}", pn), case.clone())),
+            Ok(Err(e)) => out.push(finding("C08|build-compressed|error", e, case.clone())),
+            Ok(Ok(bytes)) => {
+                if bytes.len() < 12 || bytes[..12] != exp[..] {
+                    out.push(finding("C08|build-compressed|header", format!("build_bytes_vec_compressed header {} expected {}", crate::engine::hex(&bytes[..bytes.len().min(12)]), crate::engine::hex(&exp)), case.clone()));
+                }
+            }
+        }
+    }
     let res = guarded(|| to_lib(&p).and_then(|l| l.build_bytes_vec().map_err(|e| format!("{:?}", e))));
     match res {
         Err(pn) => out.push(finding(format!("C08|build|{}", pn.sig()), format!("{:?}", pn), case)),
